@@ -10,6 +10,8 @@ import (
 	"github.com/openacid/low/size"
 
 	"verif/mc"
+	modelx "verif/props/c20x/model"
+	modely "verif/props/c20y/model"
 )
 
 // C20: size.Of is the structural sum of a value's parts; Stat's first line agrees.
@@ -29,7 +31,7 @@ func init() {
 		Level: "exploration",
 		Rule: "E1 bounded-exhaustive enumeration of the kind grammar T ::= scalar | string | [k]T | []T | map[K]T | *T | interface{} | struct{T,…} built with reflect to depth 3 (thorough 4) (every depth-1 type, then W types spread over each level as elements of the next): all 17 scalar kinds (bool, int8..64, int, uint8..64, uint, uintptr, float32/64, complex64/128) at every leaf position of depth-1 composites, a 7-type leaf subset plus 9 types of the previous level for binary structs; arrays of 0 and 2 elements; struct arity 1 and 2; map keys string/int32/uint; " +
 			"values per type from a shape alphabet (slices nil/empty/1/2 elements, maps nil/empty/1/2 entries, pointers nil/non-nil, interfaces nil/scalar/string/pointer/struct, strings \"\",\"a\",\"abc\" and 40 bytes; over leaf types also slices of 9, 70 and 1025 elements and maps of 9, 40 and 1000 entries; pointer values are deliberately REUSED in both elements of arrays and both fields of structs, so shared acyclic pointers occur). Oracle: the generator returns (value, size) and computes the size while building (headers 16/24/8/8/16, 8 for int/uint/uintptr; 64-bit platform asserted). size.Of on every value; Stat(v,d,m) for d in {0,1,3}, m in {0,1,10} and the AvgOf form: the number on the first line equals the expected size. " +
-			"Plus 9 hand-written values of Go types reflect cannot build (unexported and embedded fields, named types, padding). A case is one (value, function) pair; non-trivial when the type is composite.",
+			"Plus 9 hand-written values of Go types reflect cannot build (unexported and embedded fields, named types, padding), and a SEQUENCE of 13 values of distinct types that print alike (seven local types all called props.rec, two package-level types both called model.Rec; in pairs also equal in Size and Kind), measured in order by one goroutine, forward then backward: nothing may be carried from one type to a like-named one. A case is one (value, function) pair; non-trivial when the type is composite.",
 		Assumptions: []string{
 			"64-bit platform (asserted at start)",
 			"types deeper than D, struct arity > 2 and cyclic values are not generated (cycles are excluded by the statement)",
@@ -49,6 +51,9 @@ type c20Type struct {
 	t         reflect.Type
 	vals      []c20Val
 	composite bool
+	// sequence: the values are measured in order by one goroutine, and a replayed case is
+	// the whole sequence up to its value (state carried between calls is part of the case)
+	sequence bool
 }
 
 var c20Iface = reflect.TypeOf((*interface{})(nil)).Elem()
@@ -284,6 +289,80 @@ func c20Handwritten() c20Type {
 	return t
 }
 
+// Distinct types that print alike: reflect.Type.String() is "props.rec" for every
+// one of the local types below and "model.Rec" for the two package-level types of
+// c20x/model and c20y/model (Name() and, in pairs, Size() and Kind() coincide as
+// well). Anything the library keys on a type's name or printed form instead of
+// the type itself confuses them.
+func c20RecA() (interface{}, interface{}) {
+	type rec struct{ a byte }
+	return []rec{{1}, {2}}, [4]rec{}
+}
+func c20RecB() (interface{}, interface{}) {
+	type rec struct {
+		a [7]uint64
+		s string
+	}
+	return []rec{{s: "xy"}}, [2]rec{}
+}
+func c20RecC() interface{} {
+	type rec struct {
+		a int8
+		b int64
+	}
+	return []rec{{1, 2}, {3, 4}}
+}
+func c20RecD(p *int32) interface{} {
+	type rec struct{ p *int32 }
+	return []rec{{p}, {nil}}
+}
+func c20RecE() interface{} {
+	type rec uint16
+	return []rec{1, 2, 3}
+}
+func c20RecF() interface{} {
+	type rec string
+	return []rec{"a", "bcd"}
+}
+func c20RecG() interface{} {
+	type rec struct{ a, b int64 } // Size 16, 2 fields, like c20RecC's rec - but no padding
+	return []rec{{1, 2}}
+}
+
+// c20SameNamed is measured IN ORDER by one goroutine (forward, then backward):
+// state carried from one type to a like-named one shows in one direction or the other.
+func c20SameNamed() c20Type {
+	i32 := int32(7)
+	t := c20Type{t: reflect.TypeOf(modelx.Rec{}), composite: true, sequence: true}
+	var vals []c20Val
+	add := func(x interface{}, sz int, d string) {
+		vals = append(vals, c20Val{reflect.ValueOf(x), sz, d})
+	}
+	a1, a2 := c20RecA()
+	b1, b2 := c20RecB()
+	add(a1, 24+2, "[]rec, rec = struct{byte}")
+	add(b1, 24+56+16+2, "[]rec, rec = struct{[7]uint64;string}")
+	add(a2, 4, "[4]rec, rec = struct{byte}")
+	add(b2, 2*(56+16), "[2]rec, rec = struct{[7]uint64;string}")
+	add(c20RecC(), 24+2*9, "[]rec, rec = struct{int8;int64}")
+	add(c20RecG(), 24+16, "[]rec, rec = struct{int64;int64}")
+	add(c20RecD(&i32), 24+(8+4)+8, "[]rec, rec = struct{*int32}")
+	add(c20RecE(), 24+6, "[]rec, rec = uint16")
+	add(c20RecF(), 24+(16+1)+(16+3), "[]rec, rec = string")
+	add([]modelx.Rec{{1}, {2}, {3}}, 24+3, "[]model.Rec of package c20x/model")
+	add([]modely.Rec{{S: "q"}}, 24+24+16+1, "[]model.Rec of package c20y/model")
+	add(map[string]modelx.Rec{"k": {1}}, 8+16+1+1, "map[string]model.Rec (c20x)")
+	add(map[string]modely.Rec{"k": {S: "zz"}}, 8+16+1+24+16+2, "map[string]model.Rec (c20y)")
+	n := len(vals)
+	t.vals = append(t.vals, vals...)
+	for i := n - 1; i >= 0; i-- {
+		v := vals[i]
+		v.desc += " (again, backward pass)"
+		t.vals = append(t.vals, v)
+	}
+	return t
+}
+
 // c20Types enumerates the grammar to the given depth, deterministically. width
 // bounds how many types of a level are used as elements of the next one (the
 // first level is always used completely).
@@ -428,7 +507,7 @@ func c20Run(c *mc.Ctx) {
 	c.Set("type_depth", D)
 	c.Set("types", len(types))
 	c.Set("types_per_depth", per)
-	types = append(types, c20Handwritten())
+	types = append(types, c20Handwritten(), c20SameNamed())
 	nvals := 0
 	for _, t := range types {
 		nvals += len(t.vals)
@@ -493,7 +572,7 @@ func c20Judge(kind string, cs c20Case) (got, want string) {
 		return fmt.Sprintf("Of=%s%d", p, g), "Of=0"
 	}
 	types, _ := c20Types(cs.Depth, cs.Width)
-	types = append(types, c20Handwritten())
+	types = append(types, c20Handwritten(), c20SameNamed())
 	if cs.Path[0] >= len(types) || cs.Path[1] >= len(types[cs.Path[0]].vals) {
 		return "case does not exist in this enumeration", ""
 	}
@@ -501,6 +580,12 @@ func c20Judge(kind string, cs c20Case) (got, want string) {
 	v := t.vals[cs.Path[1]]
 	if v.desc != cs.Desc {
 		return "enumeration changed: value is now " + v.desc, "value " + cs.Desc
+	}
+	if t.sequence {
+		// the case is the whole sequence up to this value, measured in order
+		for _, pv := range t.vals[:cs.Path[1]] {
+			c20One(pv, t.t, false)
+		}
 	}
 	g, w, _, _ := c20One(v, t.t, t.t == c20Iface)
 	return g, w
